@@ -13,12 +13,13 @@ import (
 
 func init() {
 	register(&Prop{
-		ID:    "C01",
-		Title: "Value/Collection conform to a sequential register/map specification",
+		ID:          "C01",
+		Title:       "Value/Collection conform to a sequential register/map specification",
 		Explanation: "R01.1 failed calls have no effect: save is reachable only after a successful read and change; Validate errors return before GetAndUpdate; publishing is guarded by GetAndUpdate's nil error; in Delete the map delete and the REMOVE event are guarded by exists and by both preconditions; no possibly-non-nil error is returned after an effect (one allow-listed exception: the documented send timeout of Value.set). R01.2 the change function runs expected-value, expected-check, interceptBefore, masked merge, interceptAfter in this order, merges into dst (or a fresh message) and returns it. R01.3 the complete decision table of Collection.Update's read callback (generated id, exists, expect-absent, create-if-absent, callbacks) matches the specified outcomes. R01.4 List results pass through an ascending sort on the item id. R01.5 GenerateUniqueId only returns a candidate that passed the non-empty and not-exists tests on that path, in a constant-bounded loop ending in an error. R01.6 status codes of each failure class. R01.7 the id interceptor is applied in Get/Update/Delete/PullID and a generated id is mapped through it before it is used as key and reported. Does NOT decide equality of results and contents with a reference model over call sequences, merge semantics (C05) or interceptor behaviour.",
 		Assumptions: []string{"sort.Slice sorts by the given less function", "status.Error(f) builds a status with the given code"},
 		Run:         runC01,
 		Controls: []Control{
+			{Name: "delete-value-before-check", File: "pkg/resource/collection.go", Old: "\t\tif args.expectedCheck != nil {\n\t\t\tif err := args.expectedCheck(oldVal.body); err != nil {\n\t\t\t\treturn oldVal.body, err\n\t\t\t}\n\t\t}\n\t\tif args.expectedValue != nil && !proto.Equal(oldVal.body, args.expectedValue) {\n\t\t\treturn oldVal.body, ExpectedValuePreconditionFailed\n\t\t}\n", New: "\t\tif args.expectedValue != nil && !proto.Equal(oldVal.body, args.expectedValue) {\n\t\t\treturn oldVal.body, ExpectedValuePreconditionFailed\n\t\t}\n\t\tif args.expectedCheck != nil {\n\t\t\tif err := args.expectedCheck(oldVal.body); err != nil {\n\t\t\t\treturn oldVal.body, err\n\t\t\t}\n\t\t}\n", Expect: "R01.11"},
 			{Name: "drop-change-error-test", File: "pkg/resource/atomic.go", Old: "\tif newValue, err = change(oldValue, newValue); err != nil {\n\t\treturn oldValue, newValue, err\n\t}", New: "\tnewValue, err = change(oldValue, newValue)", Expect: "R01.1"},
 			{Name: "publish-before-error-check", File: "pkg/resource/value.go", Old: "\tdisarm()\n\n\tif err != nil {\n\t\treturn nil, err\n\t}\n", New: "\tdisarm()\n", Expect: "R01.1"},
 			{Name: "delete-ignores-check-error", File: "pkg/resource/collection.go", Old: "\t\t\tif err := args.expectedCheck(oldVal.body); err != nil {\n\t\t\t\treturn oldVal.body, err\n\t\t\t}", New: "\t\t\t_ = args.expectedCheck(oldVal.body)", Expect: "R01.1"},
@@ -61,6 +62,8 @@ func runC01(c *an.Ctx) {
 	c.Min("R01.3", 8)
 	c.Min("R01.4", 1)
 	c.Min("R01.5", 3)
+	r0111(c)
+	c.Min("R01.11", 1)
 	c.Min("R01.6", 6)
 	c.Min("R01.7", 5)
 }
@@ -119,28 +122,50 @@ func r011(c *an.Ctx) {
 		if get == nil || change == nil || save == nil {
 			c.Unk(rule, "pkg/resource.GetAndUpdate|signature", fn.Pos(), "parameters not found")
 		} else {
-			for i, s := range callsOfParam(fn, save) {
+			// the steps may sit in helpers GetAndUpdate hands its parameters to; they are followed there (R02.1)
+			saves := deepCallsOfParam(fn, save)
+			if len(saves) == 0 {
+				c.Unk(rule, "pkg/resource.GetAndUpdate|save", fn.Pos(), "no invocation of save found")
+			}
+			for i, s := range saves {
 				okc := false
-				for _, ch := range callsOfParam(fn, change) {
-					if an.GuardedByNilResult(s, ch, 1) {
+				for _, ch := range deepCallsOfParam(fn, change) {
+					if deepGuardedByNil(s, ch, 1) {
 						okc = true
 					}
 				}
 				okg := false
-				for _, g := range callsOfParam(fn, get) {
-					if an.GuardedByNilResult(s, g, 1) {
+				for _, g := range deepCallsOfParam(fn, get) {
+					if deepGuardedByNil(s, g, 1) {
 						okg = true
 					}
 				}
-				c.Check(okc && okg, rule, fmt.Sprintf("pkg/resource.GetAndUpdate|save#%d only after successful read and change", i+1), s.Pos(),
+				c.Check(okc && okg, rule, fmt.Sprintf("pkg/resource.GetAndUpdate|save#%d only after successful read and change", i+1), s.call.Pos(),
 					"save() guarded by nil errors of get() and change()", fmt.Sprintf("save() is reachable after a failed read (%v) or a failed change (%v): a rejected write changes the contents", !okg, !okc))
 			}
 			// no error return after save
-			for _, s := range callsOfParam(fn, save) {
-				for _, r := range an.Returns(fn) {
-					if an.Reaches(s, r) {
-						c.Check(provablyNilAt(r.Results[len(r.Results)-1], r), rule, "pkg/resource.GetAndUpdate|no error after save", r.Pos(),
-							"the return after save() has a nil error", "GetAndUpdate can return an error after it has saved: the caller treats a committed write as failed")
+			for _, s := range saves {
+				for lvl := len(s.chain); lvl >= 0; lvl-- {
+					at := s.at(lvl)
+					for _, r := range an.Returns(at.Parent()) {
+						if len(r.Results) == 0 || !an.IsErrorType(r.Results[len(r.Results)-1].Type()) {
+							continue
+						}
+						if an.Reaches(at, r) {
+							errOp := r.Results[len(r.Results)-1]
+							ok := provablyNilAt(errOp, r)
+							if !ok && lvl < len(s.chain) {
+								// the error of the helper that saved, which is nil whenever it saved (checked at its level)
+								ok = true
+								for _, v := range an.ValuesAt(errOp) {
+									if !an.IsNilConst(v) && !an.IsExtractOf(v, at, at.Call.Signature().Results().Len()-1) && v != ssa.Value(at) {
+										ok = false
+									}
+								}
+							}
+							c.Check(ok, rule, "pkg/resource.GetAndUpdate|no error after save", r.Pos(),
+								"the return after save() has a nil error", "GetAndUpdate can return an error after it has saved: the caller treats a committed write as failed")
+						}
 					}
 				}
 			}
@@ -1108,8 +1133,9 @@ func r016(c *an.Ctx) {
 	// GetAndUpdate mismatch -> Aborted is R02.1; id exhaustion -> Aborted is R01.5
 	if fn := c.Prog.Func(resPkg, "", "GetAndUpdate"); fn != nil {
 		ok := false
-		for _, r := range an.Returns(fn) {
-			if cd, isSt := statusCodeOf(c, r.Results[2]); isSt && cd == an.CodeAborted {
+		// the error may be produced by a helper the compare-and-save step was moved into
+		for _, r := range errorReturnsDeep(fn) {
+			if cd, isSt := statusCodeOf(c, r.Results[len(r.Results)-1]); isSt && cd == an.CodeAborted {
 				ok = true
 			}
 		}
@@ -1487,4 +1513,82 @@ func eachInstrDeep01(fn *ssa.Function, f func(ssa.Instruction)) {
 	for _, h := range an.TransparentCalleesOf(fn, 2) {
 		an.Instrs(h, f)
 	}
+}
+
+// r0111: Collection.Delete evaluates its two preconditions in a fixed order - the expected check sees the item first,
+// the expected value is compared afterwards - so with both configured and both failing the caller gets the check's own
+// error and the check has run exactly once (what a sequential model of Delete returns). Decided on the order of the
+// two steps inside one attempt, through helpers they may have been moved into.
+func r0111(c *an.Ctx) {
+	const rule = "R01.11"
+	fn := mustFunc(c, rule, resPkg, "Collection", "Delete")
+	if fn == nil {
+		return
+	}
+	name := "(*pkg/resource.Collection).Delete"
+	type step struct {
+		in   ssa.Instruction // the step itself
+		site ssa.Instruction // where it happens in Delete (the step, or the call of the helper that contains it)
+	}
+	var checks, values []step
+	fromField := func(v ssa.Value, field string) bool {
+		for _, s0 := range an.Sources(v) {
+			if _, _, f, ok := an.FieldOf(s0); ok && f == field {
+				return true
+			}
+		}
+		return false
+	}
+	var scan func(f *ssa.Function, site ssa.Instruction, depth int)
+	scan = func(f *ssa.Function, site ssa.Instruction, depth int) {
+		an.Instrs(f, func(in ssa.Instruction) {
+			call, ok := in.(*ssa.Call)
+			if !ok {
+				return
+			}
+			at := site
+			if at == nil {
+				at = in
+			}
+			switch {
+			case call.Call.StaticCallee() == nil && !call.Call.IsInvoke() && fromField(call.Call.Value, "expectedCheck"):
+				checks = append(checks, step{in, at})
+			case an.CalleeName(call) == "google.golang.org/protobuf/proto.Equal" && (fromField(call.Call.Args[0], "expectedValue") || fromField(call.Call.Args[1], "expectedValue")):
+				values = append(values, step{in, at})
+			default:
+				if h := an.TransparentCallee(call); h != nil && h != f && depth < 2 {
+					scan(h, at, depth+1)
+				}
+			}
+		})
+	}
+	scan(fn, nil, 0)
+	if len(checks) == 0 || len(values) == 0 {
+		c.Unk(rule, name+"|expected check before expected value", fn.Pos(), fmt.Sprintf("found %d invocation(s) of the expected check and %d comparison(s) with the expected value", len(checks), len(values)))
+		return
+	}
+	backEdge := func(from, to *ssa.BasicBlock) bool { return to.Dominates(from) }
+	var bad ssa.Instruction
+	for _, v := range values {
+		for _, k := range checks {
+			a, b := v.site, k.site
+			if a == b {
+				// both inside one helper: their order there
+				a, b = v.in, k.in
+			}
+			if a.Parent() != b.Parent() {
+				continue
+			}
+			t, _ := an.PathQuery{Target: func(x ssa.Instruction) bool { return x == b }, AvoidEdge: backEdge}.From(a.Parent(), a)
+			if t != nil {
+				bad = v.in
+			}
+		}
+	}
+	pos := fn.Pos()
+	if bad != nil {
+		pos = bad.Pos()
+	}
+	c.Check(bad == nil, rule, name+"|expected check before expected value", pos, fmt.Sprintf("%d check invocation(s), %d value comparison(s)", len(checks), len(values)),
+		"within one attempt the expected value is compared before the expected check has run: with both preconditions configured and both failing, Delete returns the value sentinel instead of the check's own error and the check callback is not invoked")
 }
